@@ -23,6 +23,8 @@ def regen_slots():
 def _impl_table(fracs, th):
     from bycycle.burst import detect_bursts_amp
     df = pd.DataFrame({'burst_fraction': np.array(fracs, dtype=float)})
+    if len(fracs) % 3 == 1:       # row labels that are not positions (a window of a larger table, filtered rows)
+        df.index = np.arange(len(fracs))[::-1] * 2 + 5
     try:
         with warnings.catch_warnings():
             warnings.simplefilter('ignore')
